@@ -1,6 +1,7 @@
 package main
 
 import (
+	"time"
 	"bufio"
 	"bytes"
 	"context"
@@ -38,6 +39,16 @@ type c15Op struct {
 	code int
 	n    int
 	b    byte
+	copy bool // w: the bytes are produced with io.Copy(w, reader) instead of w.Write
+}
+
+type repeatReader struct{ b byte }
+
+func (r repeatReader) Read(p []byte) (int, error) {
+	for i := range p {
+		p[i] = r.b
+	}
+	return len(p), nil
 }
 
 type c15Prog struct {
@@ -162,7 +173,7 @@ func genC15Prog(rng *rand.Rand, bodyLen int, minor int) c15Prog {
 		p.ops = append(p.ops, c15Op{kind: "s", code: []int{200, 201, 404, 500, 202}[rng.Intn(5)]})
 	}
 	for _, s := range sizes {
-		p.ops = append(p.ops, c15Op{kind: "w", n: s, b: byte('a' + rng.Intn(26))})
+		p.ops = append(p.ops, c15Op{kind: "w", n: s, b: byte('a' + rng.Intn(26)), copy: s > 0 && rng.Intn(4) == 0})
 		if rng.Intn(4) == 0 {
 			p.ops = append(p.ops, c15Op{kind: "f"})
 		}
@@ -217,6 +228,16 @@ func runC15(seed int64, count int) {
 			emit("C15 prog %d %s", k, progs[k].String())
 		}
 		tr := mock.NewTransport()
+		// 1/5: the tail of the last request's body has not been sent yet when its handler (which does not read the
+		// body) answers; it is sent - or the peer gives up - only after the response was seen
+		var held []byte
+		last := reqs[nreq-1]
+		if rng.Intn(5) == 0 && len(last.body) >= 2 && last.bodyKind == "l" && progs[nreq-1].read == 0 && !progs[nreq-1].closeBody {
+			k := 1 + rng.Intn(len(last.body)-1)
+			held = append([]byte(nil), stream[len(stream)-k:]...)
+			stream = stream[:len(stream)-k]
+		}
+		late := held != nil
 		// fragment the stream
 		for len(stream) > 0 {
 			n := 1 + rng.Intn(len(stream))
@@ -226,7 +247,9 @@ func runC15(seed int64, count int) {
 			tr.Feed(stream[:n])
 			stream = stream[n:]
 		}
-		tr.EndOfStream(nil)
+		if !late {
+			tr.EndOfStream(nil)
+		}
 		served := 0
 		var obs []string
 		handler := http.HandlerFunc(func(w http.ResponseWriter, r *http.Request) {
@@ -260,14 +283,20 @@ func runC15(seed int64, count int) {
 				case "s":
 					w.WriteHeader(o.code)
 				case "w":
-					w.Write(bytes.Repeat([]byte{o.b}, o.n))
+					if o.copy { // a relayed body: io.Copy from a source without WriteTo
+						io.Copy(w, io.LimitReader(repeatReader{o.b}, int64(o.n)))
+					} else {
+						w.Write(bytes.Repeat([]byte{o.b}, o.n))
+					}
 				case "f":
 					w.(http.Flusher).Flush()
 				}
 			}
 		})
 		crashed := ""
-		func() {
+		done := make(chan struct{})
+		go func() {
+			defer close(done)
 			defer func() {
 				if r := recover(); r != nil {
 					crashed = fmt.Sprint(r)
@@ -278,6 +307,32 @@ func runC15(seed int64, count int) {
 			ch := netty.NewChannel()(1, context.Background(), pl, tr, inlineExec{})
 			pl.ServeChannel(ch) // inline executor: runs the whole connection
 		}()
+		lateClosed := -1
+		if late {
+			// give the server time to answer what it has; did it close the connection meanwhile?
+			deadline := time.Now().Add(300 * time.Millisecond)
+		wait:
+			for tr.Closed() == 0 && time.Now().Before(deadline) {
+				select {
+				case <-done:
+					break wait
+				default:
+					time.Sleep(200 * time.Microsecond)
+				}
+			}
+			lateClosed = 0
+			if tr.Closed() > 0 {
+				lateClosed = 1
+			}
+			tr.Feed(held)
+			tr.EndOfStream(nil)
+		}
+		hung := false
+		select {
+		case <-done:
+		case <-time.After(5 * time.Second):
+			hung = true
+		}
 		for _, o := range obs {
 			emit("%s", o)
 		}
@@ -297,6 +352,12 @@ func runC15(seed int64, count int) {
 					closeAt = len(wire)
 				}
 			}
+		}
+		if hung {
+			emit("C15 obs hang")
+		}
+		if lateClosed >= 0 {
+			emit("C15 obs lateclosed %d", lateClosed)
 		}
 		emit("C15 obs wire %s", hexOrDash(wire))
 		emit("C15 obs close %d", closeAt)
